@@ -44,10 +44,10 @@ Theorem gen_with_var_certified : forall (E I : vec -> Prop),
   let e := gen_calc_proj_physical_with_var F n orc sattr (VStr "<self>") (VStr "<var>") (VStr "<on_para_eq_constraint>")
              (VInt (Z.of_nat max_iter)) (VBool hist) in
   exists (x p q : vec) (g : F) (hx : list (val F)),
-    e "$err" = VBool false /\
-    (if hist then exists d, e "$ret" = VTuple [VVec (conv_out x); VDict (("p", d "p") :: ("q", d "q") :: ("x", VList hx) :: ("y", d "y") :: ("error_value", d "e") :: nil)]
+    e N_err = VBool false /\
+    (if hist then exists d, e N_ret = VTuple [VVec (conv_out x); VDict (("p", d "p") :: ("q", d "q") :: ("x", VList hx) :: ("y", d "y") :: ("error_value", d "e") :: nil)]
                             /\ last hx (VVec x0) = VVec x
-     else e "$ret" = VVec (conv_out x)) /\
+     else e N_ret = VVec (conv_out x)) /\
     (forall i, (i < n)%nat -> cadd F (cadd F (x i) (p i)) (q i) = x0 i) /\
     (forall z, E z -> I z -> dot n (vsub x0 x) (vsub z x) <= g).
 Proof. intros E I oE oI hist max_iter Hm e.
@@ -67,10 +67,10 @@ Theorem gen_obj_certified : forall (E I : vec -> Prop),
   obtuse F n E (fun _ => Peq) -> obtuse F n I (fun _ => Pineq) -> forall (hist : bool) max_iter, (1 <= max_iter)%nat ->
   let e := gen_calc_proj_physical F n orc sattr (VVec x0) (VInt (Z.of_nat max_iter)) (VBool hist) in
   exists (x p q : vec) (g : F) (hx : list (val F)),
-    e "$err" = VBool false /\
-    (if hist then exists d, e "$ret" = VTuple [VVec x; VDict (("p", d "p") :: ("q", d "q") :: ("x", VList hx) :: ("y", d "y") :: ("error_value", d "e") :: nil)]
+    e N_err = VBool false /\
+    (if hist then exists d, e N_ret = VTuple [VVec x; VDict (("p", d "p") :: ("q", d "q") :: ("x", VList hx) :: ("y", d "y") :: ("error_value", d "e") :: nil)]
                             /\ last hx (VVec x0) = VVec x
-     else e "$ret" = VVec x) /\
+     else e N_ret = VVec x) /\
     (forall i, (i < n)%nat -> cadd F (cadd F (x i) (p i)) (q i) = x0 i) /\
     (forall z, E z -> I z -> dot n (vsub x0 x) (vsub z x) <= g).
 Proof. intros E I oE oI hist max_iter Hm e.
@@ -87,8 +87,8 @@ Proof. intros E I oE oI hist max_iter Hm e.
 
 (* max_iteration = 0: both regenerated routines raise (UnboundLocalError on the loop variable) *)
 Theorem gen_zero_fuel_raises : forall hist : bool,
-  gen_calc_proj_physical_with_var F n orc sattr (VStr "<self>") (VStr "<var>") (VStr "<on_para_eq_constraint>") (VInt (Z.of_nat 0)) (VBool hist) "$err" = VBool true /\
-  gen_calc_proj_physical F n orc sattr (VVec x0) (VInt (Z.of_nat 0)) (VBool hist) "$err" = VBool true.
+  gen_calc_proj_physical_with_var F n orc sattr (VStr "<self>") (VStr "<var>") (VStr "<on_para_eq_constraint>") (VInt (Z.of_nat 0)) (VBool hist) N_err = VBool true /\
+  gen_calc_proj_physical F n orc sattr (VVec x0) (VInt (Z.of_nat 0)) (VBool hist) N_err = VBool true.
 Proof. intros hist. split.
   - exact (gen_with_var_equiv F n Peq Pineq x0 conv_out mode eps hist 0).
   - exact (gen_obj_equiv F n Peq Pineq x0 conv_out mode eps hist 0). Qed.
